@@ -31,7 +31,7 @@ F18Frame(s) ==
     /\ (KTrigIDs(s) \cap s.failedIDs # {} \/ s.fr.late # {})
 F18Clauses == {"NothingAfterTerminal", "NotifSeqOK", "TerminalFrozen", "HistAgreesWithRecord",
                "SiblingsFrozen:rpc", "SiblingsFrozen:event", "NoLateEffects:pub", "FanOutFailsOnce",
-               "TriggerAckLast:pub", "HistoryWellFormed", "RecordShape"}
+               "TriggerAckLast:pub", "HistoryWellFormed", "RecordShape", "ExitFollowsEnter"}
 
 (* ---- F19: the error of a fan-out is caught (Catch on the Parallel/Map state) while sibling
         branches are still outstanding: they are not cancelled, their late results are
@@ -41,7 +41,7 @@ F19Clauses == {"NotifSeqOK", "TerminalFrozen", "EventuallyTerminal", "NoLateEffe
                "DrainedD1", "DrainedD1:broker-unacked", "DrainedD1:queued", "CarrierExists",
                "SiblingsFrozen:rpc", "SiblingsFrozen:event", "SiblingsCancelled",
                "JoinAfterAll", "ViewsAgree:note-vs-record", "NotifiedOncePerChange", "RecordShape",
-               "TriggerAckLast:pub", "TriggerAckLast:terminal-note", "TriggerAckLast:terminal-record"}
+               "TriggerAckLast:pub", "TriggerAckLast:terminal-note", "TriggerAckLast:terminal-record", "ExitFollowsEnter"}
 F19Starts(s0, e) ==
     IF e.k = "end" /\ s0.fr.failedNow # {} /\ ~s0.fr.retrypub
     THEN {x \in KTrigOwners(s0) : ~KTerminal(s0, x) /\
